@@ -442,6 +442,10 @@ func streamC02Proc(env *runEnv) {
 					if cookieOK {
 						cookie = []string{"cookie", "cookie\x00tail"}[ext%2]
 					}
+					if ext == 4 || ext == 7 {
+						// code units whose low byte spells an ASCII cookie and whose high byte does not: another string
+						cookie = []string{"c\u016fokie", "\u0463\u046f\u046f\u046b\u0469\u0465", "cook\u7f69e", "coo\u016bie\x00"}[(ext/4+len(cfg.bits())+b2i(withCookie)+2*b2i(cookieOK))%4]
+					}
 					items := []item{
 						{data: packet(ptHandshake, handshakeBody(1, 0, 0, ext)), ans: ans},
 						{data: packet(ptTunnelCreate, tunnelCreateBody(0, cookie, withCookie)), ans: ans},
@@ -459,4 +463,11 @@ func streamC02Proc(env *runEnv) {
 			}
 		}
 	}
+}
+
+func b2i(b bool) int {
+	if b {
+		return 1
+	}
+	return 0
 }
